@@ -221,6 +221,8 @@ func (c *ctx) xmlCase(e *entry, b []byte, class string) {
 	if pan != "" {
 		r.Fail("unmarshal-total", e.name+"/"+panicClass(pan), []string{r.Prop + " " + lineKey(e.name, b)},
 			fmt.Sprintf("unmarshalling %q into %s panicked: %s", b, e.name, pan))
+	} else if err == nil && e.decoded != nil {
+		e.decoded(c, b, []string{r.Prop + " " + lineKey(e.name, b)})
 	}
 }
 
